@@ -81,6 +81,9 @@ def gen_histories(ctx, binp, pid):
         for w in worlds:
             for _ in range(max(1, per_world // 2)):
                 hs += l2gen.reconf_histories(w, rnd, nops)
+            if w["policy"] == "ta":
+                for _ in range(3):
+                    hs.append(l2gen.fill_history(w, rnd, nops + 10, reconf=0.2))
         return hs
     for w in worlds:
         for j in range(per_world):
